@@ -11,13 +11,19 @@ ID = "C11"
 PARALLEL = 16
 CASE_TIMEOUT_S = 30
 RULE = ("exhaustive: every dataset of n <= 10 (quick: n <= 7) sorted entries x all 2^(n-1) ways of cutting it into consecutive "
-        "non-empty chunks: group-by on every key pattern (which neighbours share a key) for the encoded-ragged key column "
-        "(first=last shortcut; every (pattern, chunking) pair for n <= 9 / 7, a seeded 15% of the 4^9 pairs for n = 10) and for string and integer key columns (n <= 8 / 5); mean / bincount / histogram "
-        "(explicit edges and bins+range) / k-mer counts (k=1,2,3) / chunk_entries / chunk_lines (n_entries 1..n+1) on fixed "
-        "datasets; computation graphs (shared streams, unused nodes, stream roots) on all chunkings of n <= 6 / 5; then seeded "
-        "random larger datasets (n <= 40) with sampled cut sets, random graphs, multi-root / reduction graphs and stream=True "
-        "genome pipelines (pileup histogram / sum / mask / values under intervals / merged; 1-4 chromosomes, some empty). "
-        "Non-trivial = at least 2 chunks and (a cut inside a group, or a single-entry chunk, or a short last chunk)")
+        "chunks: group-by on every key pattern (which neighbours share a key) for the encoded-ragged key column (first=last "
+        "shortcut; every (pattern, chunking) pair for n <= 9 / 7, a seeded 15% of the 4^9 pairs for n = 10) and for string and "
+        "integer key columns (n <= 8 / 5); an empty chunk at every position of every chunking of n <= 4; mean (1-d, axis 0, "
+        "axis 1) / bincount / quantile / histogram (explicit edges, bins+range) / k-mer counts (k=1,2,3; 4- and 5-letter "
+        "alphabets) / chunk_entries / chunk_lines (n_entries 0..n+1) on fixed datasets, chunks made as fresh tables, slices, "
+        "index arrays or masks; > 10^6 k-mers in one chunk and chunkings around the 1,000,000 block of count_encoded; "
+        "computation graphs (shared streams, unused nodes, stream roots, comparisons, node[mask_node], sum / mean / histogram "
+        "reductions alone and joined, several roots, dict and pass-through compute) on all chunkings of n <= 6 / 5; seeded "
+        "random larger datasets (n <= 40) and random graphs; stream=True genome pipelines (1-4 chromosomes, some empty): "
+        "pile-up histogram / sum / mask / data, values under windows (plain, stranded incl. '.'), their mean / max / sum / "
+        "row sums / column means, merged, chromosome_map merge, bedgraph track, extended_to_size, ufuncs on tracks; history "
+        "pairs (a result must survive a later call). Non-trivial = at least 2 chunks and (a cut inside a group, an empty or "
+        "single-entry chunk, or a short last chunk)")
 EXHAUSTIVE = {"quick": True, "thorough": True}
 MODEL_OPS = {"mean_axis0", "rowmean", "quantile", "mean", "bincount", "histogram", "count_kmers", "groupby", "chunk_entries", "chunk_lines", "graph", "graph_many", "pipeline"}
 ASSUMPTIONS = [
@@ -34,7 +40,9 @@ MANIFEST = {
     "text": "Lean 4 theorems for every stream (list of chunks) = every chunking of its concatenation, by induction over the chunk "
             "list: mean as (sum,n) pairs, padded in-place bincount addition, histogram addition for explicit edges, k-mer count "
             "sums, group-by (change points + first=last shortcut, joined across chunks) = runs of the whole data for contiguous "
-            "keys, chunk_entries/chunk_lines = the canonical cut into pieces of exactly n (last 1..n); refutations of the shipped "
+            "keys — with the shortcut exactly when every chunk with equal end keys is constant (groupby_fast_iff) —, "
+            "chunk_entries/chunk_lines = the canonical cut into pieces of exactly n (last 1..n), idempotent, raising iff n = 0; "
+            "refutations of the shipped "
             "chunk_entries ([10], n=3 -> [3,7]), chunk_lines (empty trailing chunk) and StreamNode.compute (first chunk lost). "
             "Computation graph: an interpreter with per-node (buffer index, current buffer, pull count) state mirrors "
             "computation_graph.py; proved for every graph in construction order (shared streams, unused nodes), for one root and "
@@ -42,7 +50,8 @@ MANIFEST = {
             "stream is pulled once per index (graph_lockstep[_many]); get_iter yields the per-buffer values and stops cleanly; "
             "compute() of element-wise expressions = the expression in memory on the concatenated streams for every common "
             "cutting (graph_value[_many]); np.sum / np.mean (sum,n) / np.histogram(edges) reduction nodes, alone or joined, fold to "
-            "their in-memory value (graph_reduced_value). stream=True genome pipelines: chunks -> group-by -> iter_chromosomes "
+            "their in-memory value (graph_reduced_value); node[mask_node] = the filter of the concatenation "
+            "(graph_filter_value). stream=True genome pipelines: chunks -> group-by -> iter_chromosomes "
             "(model of the genome-order walk) -> per-chromosome pile-up / mask / sum / values under chromosome-sorted peaks, "
             "concatenated, = the whole-genome in-memory result of C10 (per_chromosome, per_chromosome_values; uses C10.cover_local "
             "and C10.extract_reversed). Correspondence: all 2^(n-1) chunkings of every small sorted dataset x every computation, "
